@@ -4,14 +4,14 @@ Ltac Zify.zify_post_hook ::= Z.to_euclidean_division_equations.
 
 Theorem epoch_fraction_exact_l : forall t,
   epoch t * 1000000000 + fraction t = 1000 * t /\ 0 <= fraction t < 1000000000.
-Proof. intros t. unfold epoch, fraction, floor_sec, M6. lia. Qed.
+Proof. intros t. unfold epoch, fraction, floor_sec, pa_divide, pa_multiply, pa_subtract, pa_int32, pa_floor_second, M6. lia. Qed.
 
 (* fits the wire types: fraction is an int32, and the epoch is no larger in magnitude than the input *)
 Theorem fraction_fits_int32_l : forall t, 0 <= fraction t < 2147483648.
 Proof. intros t. pose proof (epoch_fraction_exact_l t). lia. Qed.
 
 Theorem ts_roundtrip_l : forall t, decode_ts (epoch t) (fraction t) = t.
-Proof. intros t. unfold decode_ts, epoch, fraction, floor_sec, M6. lia. Qed.
+Proof. intros t. unfold decode_ts, epoch, fraction, floor_sec, pa_divide, pa_multiply, pa_subtract, pa_int32, pa_floor_second, M6. lia. Qed.
 
 Theorem ts_roundtrip_opt_l : forall v, decode_ts_opt (encode_ts v) = v.
 Proof. intros [t|]; cbn; [rewrite ts_roundtrip_l|]; reflexivity. Qed.
